@@ -25,7 +25,7 @@ RULE = ("(life) all histories up to depth 4 (5 thorough) over {write r1, write r
         "pre-existing file x scripted clock. states = distinct (adapter, open/closed, records written, flushed-since-write); "
         "non-trivial = at least one record written")
 
-EVENTS = ["w1", "w2", "flush", "close", "exit", "exit-exc", "del"]
+EVENTS = ["w1", "w2", "flush", "close", "exit", "exit-exc", "del", "wbad"]  # wbad: a record the writer refuses; the caller carries on
 CLOSERS = ("close", "exit", "exit-exc")
 ADAPTERS = ["stream", "stream.gz", "stream.bz2", "stream.lz4", "stream.zst", "stream-fileobj", "jsonfile", "avro", "sqlite", "csvfile", "line", "text",
             "split+stream", "split+jsonfile", "archive"]
@@ -216,7 +216,18 @@ def run_life(case):
         for i, ev in enumerate(hist):
             flushed_before = flushed and "flush" in hist[:i]
             try:
-                if ev in ("w1", "w2"):
+                if ev == "wbad":
+                    bad = recs.build_record(rs("w/one", [["string", "s"], ["varint", "n"]], ["chr(0xd800)" if adapter not in ("sqlite",) else "'x'", "2**63" if adapter in ("sqlite", "avro") else str(i)]))
+                    try:
+                        w.write(bad)
+                        if adapter in ("jsonfile", "split+jsonfile", "csvfile", "line", "text", "archive"):
+                            written.append(("w/one", i))  # these writers can represent it: then it counts as written
+                        elif adapter.startswith("stream") or adapter in ("split+stream",):
+                            written.append(("w/one", i))
+                    except Exception:  # noqa: BLE001
+                        pass
+                    flushed = False
+                elif ev in ("w1", "w2"):
                     r = recs.build_record(rec_spec(ev, i, single))
                     w.write(r)
                     written.append((("w/one" if (ev == "w1" or single) else "w/two"), i))
@@ -310,7 +321,10 @@ def run_split(case):
     viol = []
     try:
         stem, ext, scheme, query = target
-        base = os.path.join(d, stem + ext)
+        relative = stem.startswith("rel")
+        base = (stem + ext) if relative else os.path.join(d, stem + ext)
+        if relative:
+            os.chdir(d)
         q = "count=%d&suffix-length=%d" % (limit, slen) + (("&" + query) if query else "")
         uri = ("split+%s://" % scheme if scheme else "split://") + base + "?" + q
         records = [recs.build_record(rec_spec("w1" if i % 2 == 0 else "w2", i)) for i in range(N)]
@@ -388,6 +402,7 @@ def run_split(case):
             except Exception as e:  # noqa: BLE001
                 viol.append(("C17:split:raw-byte-concatenation-unreadable:%s" % type(e).__name__, case, {"error": repr(e)[:200]}))
     finally:
+        os.chdir("/")
         shutil.rmtree(d, ignore_errors=True)
     seen = set()
     v2 = [v for v in viol if not (v[0] in seen or seen.add(v[0]))]
@@ -430,7 +445,10 @@ def run_rotation(case):
     d = fresh_dir()
     viol = []
     try:
-        tmpl = os.path.join(d, "{name}-{record._generated:%Y%m%dT%H}.records.gz")
+        tkind = case.get("template", "hour")
+        tmpl = os.path.join(d, {"hour": "{name}-{record._generated:%Y%m%dT%H}.records.gz",
+                                "minute": "{name}-{record._generated:%Y%m%dT%H%M}.records.gz",
+                                "field": "{name}-{record._generated:%Y%m%dT%H}-{record.s}.records.gz"}[tkind])
         hours = {"h1": 1, "h2": 2, "h3": 3}
         sentinels = []
         if pre:
@@ -450,9 +468,12 @@ def run_rotation(case):
             w = PathTemplateWriter(tmpl)
             for i, hb in enumerate(seq):
                 ts = "dt(2021,5,5,%d,%d,0,tz=UTC)" % (hours[hb], i)
-                r = recs.build_record(rs("w/one", [["string", "s"], ["varint", "n"]], ["'r%d'" % i, str(i)], _generated=ts))
+                sval = "k%d" % (i % 2)
+                r = recs.build_record(rs("w/one", [["string", "s"], ["varint", "n"]], ["'%s'" % sval, str(i)], _generated=ts))
                 w.write(r)
-                written.append((("w/one", i), "records-20210505T%02d" % hours[hb]))
+                prefix_ = {"hour": "records-20210505T%02d" % hours[hb], "minute": "records-20210505T%02d%02d" % (hours[hb], i),
+                           "field": "records-20210505T%02d-%s" % (hours[hb], sval)}[tkind]
+                written.append((("w/one", i), prefix_))
             w.close()
         except Exception as e:  # noqa: BLE001
             viol.append(("C17:rotation:raises-%s" % type(e).__name__, case, {"error": repr(e)[:200]}))
@@ -510,9 +531,11 @@ def cases(tier, seed):
                         break
                 if bad:
                     continue
+                if "wbad" in hist and adapter not in ("stream", "stream.gz", "stream-fileobj", "sqlite", "jsonfile", "split+stream"):
+                    continue  # refused writes: Avro's behaviour is C19's known finding; text writers have no notion of a refused record
                 yield {"kind": "life", "adapter": adapter, "hist": list(hist)}
     targets = [("x", ".records", "", ""), ("x", ".records.gz", "", ""), ("x", ".json", "jsonfile", ""), ("x.with.dots", ".records", "", ""),
-               ("y", ".json", "jsonfile", "descriptors=true")]
+               ("y", ".json", "jsonfile", "descriptors=true"), ("rel", ".jsonl", "jsonfile", ""), ("relstream", ".records", "stream", "")]
     for n, limit, slen, target, closing in itertools.product(range(0, 10), [1, 2, 3, 4, 10], [1, 2, 3], targets, ["with", "flush+close", "close"]):
         yield {"kind": "split", "n": n, "limit": limit, "slen": slen, "target": list(target), "closing": closing}
     for n, limit in ((12, 1), (25, 2), (11, 1)):
@@ -522,6 +545,10 @@ def cases(tier, seed):
             for pre in (False, True):
                 for clock in ("advances", "same-second"):
                     yield {"kind": "rotation", "seq": list(seq), "pre": pre, "clock": clock}
+        if k <= 4:
+            for tk in ("minute", "field"):
+                for seq in itertools.product(["h1", "h2"], repeat=k):
+                    yield {"kind": "rotation", "seq": list(seq), "pre": False, "clock": "advances", "template": tk}
 
 
 def main(tier, seed, workers=None):
